@@ -21,6 +21,10 @@ Init == \/ /\ t \in FrTypes
         \* a large opaque record in front, so that the owner of the last record is a compression pointer to an
         \* offset beyond 1024 / 8192 / 16000 (every bit of the 14-bit offset field matters)
         \/ /\ t = 10 /\ mode = "far-pointer" /\ delta \in {1100, 1101, 1102, 9000, 9001, 9002, 16200, 16201}
+        \* question codes: every pair of (QTYPE, QCLASS) from codes the crate has no name for, the boundaries of
+        \* the 16 / 15-bit fields and one known code each -- the question comes out with the codes on the wire or
+        \* the message is rejected
+        \/ /\ t \in {1, 16} /\ mode = "question" /\ delta \in 0 .. 63
 Next == UNCHANGED vars
 Spec == Init /\ [][Next]_vars
 
@@ -62,7 +66,11 @@ Usable == Len(NatRd) + delta >= 0
 \* a question in front, its QTYPE / QCLASS / unicast bit spread over the record types: specific types, the
 \* five QTYPE specials (IXFR AXFR MAILB MAILA ANY), classes IN / CH / ANY
 QSpecials == <<1, 251, 252, 253, 254, 255, 65, 16>>
-Quest == [name |-> <<<<113>>, La>>, qtype |-> QSpecials[(t % 8) + 1], qclass |-> <<1, 3, 255>>[(t % 3) + 1], unicast |-> (t % 2 = 1)]
+QTCodes == <<0, 250, 256, 9999, 65535, 128, 1, 255>>
+QCCodes == <<0, 2, 5, 253, 256, 32767, 1, 255>>
+Quest == IF mode = "question"
+         THEN [name |-> <<<<113>>, La>>, qtype |-> QTCodes[(delta % 8) + 1], qclass |-> QCCodes[(delta \div 8) + 1], unicast |-> (t = 16)]
+         ELSE [name |-> <<<<113>>, La>>, qtype |-> QSpecials[(t % 8) + 1], qclass |-> <<1, 3, 255>>[(t % 3) + 1], unicast |-> (t % 2 = 1)]
 \* Sentinel(2) with its owner written as a pointer to Sentinel(1)'s owner (s1: 01 's' 01 '1' 00)
 FarOffset == 12 + Len(EncQuestion(Quest)) + Len(First)
 SentinelPtr == <<192 + (FarOffset \div 256), FarOffset % 256>> \o SubSeq(Sentinel(1), 6, Len(Sentinel(1)))
